@@ -45,6 +45,17 @@ func (ex *Exec) assertTerm(c *Term, label string) {
 		if !neg.IsConst() {
 			ex.sol.PopScope()
 		}
+		// one more attempt with the other z3 and a longer limit; only "unsat" settles it
+		if rs := ex.w.retrySolver(); rs != nil && !neg.IsConst() {
+			rs.Reset()
+			for _, t := range ex.pc {
+				rs.Assert(ex.tc, t)
+			}
+			if rs.Check(ex.tc, neg, false) == Unsat {
+				ex.stubsHit["solver-retry:unknown-settled-by-second-attempt"] = true
+				return
+			}
+		}
 		ex.unknowns++
 		panic(pathEnd{kind: "unsupported", msg: "solver unknown on assertion " + label})
 	}
@@ -308,8 +319,12 @@ func init() {
 	}
 	V["verifAbstractSlice"] = func(ex *Exec, th *Thread, fn *ssa.Function, a []Value) (Value, bool) {
 		ln := a[0].(*Term)
+		capa := ln
+		if len(a) > 1 { // optional second argument: the capacity (assumed >= length by the harness)
+			capa = a[1].(*Term)
+		}
 		et := fn.Signature.Results().At(0).Type().Underlying().(*types.Slice).Elem()
-		return sliceV{abs: &absSlice{length: ln, capa: ln, elemT: et}}, false
+		return sliceV{abs: &absSlice{length: ln, capa: capa, elemT: et}}, false
 	}
 	V["verifNumString"] = func(ex *Exec, th *Thread, fn *ssa.Function, a []Value) (Value, bool) {
 		return ex.symNum(a[0].(*Term), true), false
